@@ -38,7 +38,7 @@ func isError(err error) bool {
 var NewReaderDict = flate.NewReaderDict
 
 func NewReader(r io.Reader) io.ReadCloser {
-	rr := &decompressor{}
+	rr := &decompressor{starved: true}
 	rr.r = r
 	if ur, ok := r.(*bufio.Reader); ok {
 		// bufio.NewReader would put a second buffer in front of a small one
@@ -61,6 +61,7 @@ type decompressor struct {
 	err           error
 	peekSize      int
 	eof           bool
+	starved       bool // the last step stopped because the decoder needs more input (true before the first step)
 }
 
 func (r *decompressor) Reset(under io.Reader, _ []byte) error {
@@ -78,6 +79,7 @@ func (r *decompressor) Reset(under io.Reader, _ []byte) error {
 
 	r.peekSize = 0
 	r.eof = false
+	r.starved = true
 	r.err = nil
 	r.writePos = 0
 	r.readPos = 0
@@ -121,8 +123,12 @@ func (f *decompressor) step() (err error) {
 		// the final block is decoded: what is left is handed out without asking the source for more
 		f.peekSize = 0
 	} else if state.input == nil {
-		// wait for one byte more than the bit buffer already holds, not for a full buffer
-		_, err = f.rBuf.Peek(int(state.bitsLen/8) + 1)
+		if f.starved {
+			// the decoder ran out of input: wait for one byte more than the bit buffer
+			// already holds, not for a full buffer. A step that stopped for another reason
+			// (output window full, end of a block) goes on with what is buffered.
+			_, err = f.rBuf.Peek(int(state.bitsLen/8) + 1)
+		}
 		state.input, _ = f.rBuf.Peek(f.rBuf.Buffered())
 		f.peekSize = len(state.input)
 		if err != nil && err != io.EOF {
@@ -142,6 +148,7 @@ func (f *decompressor) step() (err error) {
 
 	startInputSize, startBitsLen := len(f.state.input), int(f.state.bitsLen)
 	err = f.decomperss()
+	f.starved = err == errEndInput
 	f.state.rOffset(startInputSize, startBitsLen)
 
 	if isError(err) || (err == errEndInput && f.eof) {
